@@ -9,6 +9,7 @@ import (
 	"path/filepath"
 	"sort"
 	"strings"
+	"sync"
 
 	"github.com/ipfs/go-cid"
 	"github.com/ipld/go-car/cmd/car/lib"
@@ -35,8 +36,8 @@ type C13Case struct {
 	MaxHdr  uint64   `json:"maxhdr,omitempty"`
 	// Files: 0 = in-memory sources only; 1 = the file-backed entry points also run: NewReader over
 	// *os.File and OpenReader (mmap) on the seed and on every truncation, *os.File and
-	// cmd/car/lib.InspectCar also on every mutant the scan accepts (ZeroEOF cases, where InspectCar's
-	// hard-coded options apply); 2 = all three on every input NewReader accepts.
+	// cmd/car/lib.InspectCar also on every mutant the scan accepts (in the cases whose ZeroEOF equals the
+	// one InspectCar itself reads with, see c13LibZeroEOF); 2 = all three on every input NewReader accepts.
 	Files int `json:"files,omitempty"`
 	// Vars: also observe every judged input through the in-memory source kinds and call orders.
 	Vars bool `json:"vars,omitempty"`
@@ -226,6 +227,8 @@ func c13JudgeReport(x *kit.Ctx, rc C13Case, o *c13Oracle, rep *lib.Report, err e
 	if rep.Version != int(o.version) {
 		bad("version", rep.Version, o.version)
 	}
+	// The report names the roots as strings. The statement fixes which CIDs they are, not the
+	// multibase they are printed in: every entry must decode to the scan's root at that position.
 	var wantRoots []string
 	for _, r := range ss.roots {
 		c, cerr := cid.Cast(r)
@@ -234,8 +237,15 @@ func c13JudgeReport(x *kit.Ctx, rc C13Case, o *c13Oracle, rep *lib.Report, err e
 		}
 		wantRoots = append(wantRoots, c.String())
 	}
-	if strings.Join(rep.Roots, ",") != strings.Join(wantRoots, ",") {
+	rootsOK := len(rep.Roots) == len(ss.roots)
+	for i := 0; rootsOK && i < len(rep.Roots); i++ {
+		c, derr := cid.Decode(rep.Roots[i])
+		rootsOK = derr == nil && bytes.Equal(c.Bytes(), ss.roots[i])
+	}
+	if !rootsOK {
 		bad("roots", []string(rep.Roots), wantRoots)
+	} else if strings.Join(rep.Roots, ",") != strings.Join(wantRoots, ",") {
+		x.Outcome("beyond-statement:report-roots-text")
 	}
 	if rep.RootsPresent != ss.rootPresent {
 		bad("roots-present", rep.RootsPresent, ss.rootPresent)
@@ -270,18 +280,24 @@ func c13JudgeReport(x *kit.Ctx, rc C13Case, o *c13Oracle, rep *lib.Report, err e
 		if rep.IndexOffset != o.hdr.IndexOffset {
 			bad("index-offset", rep.IndexOffset, o.hdr.IndexOffset)
 		}
+		// Report.IndexType is a rendering of the index codec. The statement fixes the codec (judged
+		// as a number through Stats.IndexCodec in the osfile observation of this same file), not
+		// its text: the rendering only has to tell the codecs apart, consistently over the run.
+		if other, clash := c13IdxText.note(o.idxCodec, rep.IndexType); clash != "" {
+			bad("index-type", fmt.Sprintf("%q for codec %#x", rep.IndexType, o.idxCodec), clash+" "+other)
+		}
 		wantIdx := "(none)"
 		if o.idxCodec != 0 {
 			wantIdx = multicodec.Code(o.idxCodec).String()
 		}
 		if rep.IndexType != wantIdx {
-			bad("index-type", rep.IndexType, wantIdx)
+			x.Outcome("beyond-statement:report-index-type-text")
 		}
 	}
-	// the rendered report names every root as often as the header lists it
+	// the rendered report names every root (as the report spells it) as often as the header lists it
 	txt := rep.String()
 	mult := map[string]int{}
-	for _, r := range wantRoots {
+	for _, r := range rep.Roots {
 		mult[r]++
 	}
 	for r, n := range mult {
@@ -290,6 +306,56 @@ func c13JudgeReport(x *kit.Ctx, rc C13Case, o *c13Oracle, rep *lib.Report, err e
 		}
 	}
 }
+
+// c13IdxText records, over the whole run, how lib.InspectCar's Report spells each index codec
+// (0 = no index). A codec spelled in two ways, or two codecs spelled alike, is a report that does
+// not state the index codec; the exact spelling is not part of the statement.
+var c13IdxText = &c13IdxTexts{byCodec: map[uint64]string{}, byText: map[string]uint64{}}
+
+type c13IdxTexts struct {
+	mu      sync.Mutex
+	byCodec map[uint64]string
+	byText  map[string]uint64
+}
+
+func (t *c13IdxTexts) note(codec uint64, text string) (other, clash string) {
+	t.mu.Lock()
+	defer t.mu.Unlock()
+	if prev, ok := t.byCodec[codec]; ok && prev != text {
+		return fmt.Sprintf("%q", prev), "the same codec was reported earlier as"
+	}
+	if c, ok := t.byText[text]; ok && c != codec {
+		return fmt.Sprintf("%#x", c), "the same text was reported earlier for codec"
+	}
+	t.byCodec[codec], t.byText[text] = text, codec
+	return "", ""
+}
+
+// c13LibZeroEOF tells whether cmd/car/lib.InspectCar reads with ZeroLengthSectionAsEOF: which
+// options InspectCar hard-codes is not part of the statement, only that its verdict and report
+// agree with the scan made under the same options. Probed once per process on a fixed valid
+// null-padded CARv1 (handle positioned at the end of the file, see the C19 note in c13Files).
+var c13LibZeroEOF = func() func(dir string) bool {
+	var once sync.Once
+	var zero bool
+	return func(dir string) bool {
+		once.Do(func() {
+			file, _, _, _, _ := c13Build(C13Case{Roots: "a", Seq: []string{"a"}, Cont: "v1null"})
+			f, err := os.CreateTemp(dir, "c13-libprobe-*.car")
+			if err != nil {
+				panic(err)
+			}
+			defer os.Remove(f.Name())
+			defer f.Close()
+			if _, err := f.Write(file); err != nil {
+				panic(err)
+			}
+			_, ierr := lib.InspectCar(f, true)
+			zero = ierr == nil
+		})
+		return zero
+	}
+}()
 
 // c13Check judges one input. It returns the outcome class of the primary observation.
 func c13Check(x *kit.Ctx, cs C13Case, cf *c13File, input []byte, mut *C13Mut) string {
@@ -435,7 +501,7 @@ func c13Check(x *kit.Ctx, cs C13Case, cf *c13File, input []byte, mut *C13Mut) st
 	x.Outcome(out)
 
 	// ---- file-backed entry points
-	if cs.Files == 2 || (cs.Files == 1 && (mut == nil || mut.Kind == "trunc" || (or.want && cs.ZeroEOF))) {
+	if cs.Files == 2 || (cs.Files == 1 && (mut == nil || mut.Kind == "trunc" || (or.want && cs.ZeroEOF == c13LibZeroEOF(x.Dir)))) {
 		c13Files(x, cs, rc, cf, or, opts, cs.Files == 2 || mut == nil || mut.Kind == "trunc")
 	}
 	return out
@@ -477,7 +543,7 @@ func (cf *c13File) close() {
 }
 
 // c13Files drives the entry points that need a file: NewReader over an *os.File, OpenReader
-// (mmap; only when withMmap) and cmd/car/lib.InspectCar (which hard-codes ZeroLengthSectionAsEOF
+// (mmap; only when withMmap) and cmd/car/lib.InspectCar (which fixes its own options: ZeroLengthSectionAsEOF as probed by c13LibZeroEOF
 // and default limits, so it only runs in cases with exactly those options).
 func c13Files(x *kit.Ctx, cs, rc C13Case, cf *c13File, or *c13Oracle, opts []carv2.Option, withMmap bool) {
 	f := cf.set(or.input) // positioned at offset 0, as a freshly opened file is
@@ -504,17 +570,21 @@ func c13Files(x *kit.Ctx, cs, rc C13Case, cf *c13File, or *c13Oracle, opts []car
 			c13Judge(x, rc, "mmap", or, s, e)
 		}
 	}
-	if cs.ZeroEOF && cs.MaxSect == 0 && cs.MaxHdr == 0 {
+	if cs.ZeroEOF == c13LibZeroEOF(x.Dir) && cs.MaxSect == 0 && cs.MaxHdr == 0 {
 		rep, err := lib.InspectCar(f, true)
-		if or.version == 1 && err != nil && err.Error() == "unexpected data after EOF: 1" {
+		if or.version == 1 && or.want && err != nil {
 			// C19's known finding c19:inspect-full-v1:trailing-data-probe: the probe Reads from the
 			// handle's position, which is still 0 because Inspect used ReadAt. Out of C13's scope;
-			// hand the file over positioned at its end, where the probe is correct.
-			x.Count("c19_trailing_probe_seen", 1)
+			// hand the file over positioned at its end, where the probe is correct. The error is not
+			// recognised by its text: any refusal of a CARv1 the scan accepts is retried this way, and
+			// only a refusal that persists is judged.
 			if _, serr := f.Seek(0, io.SeekEnd); serr != nil {
 				panic(serr)
 			}
-			rep, err = lib.InspectCar(f, true)
+			if rep2, err2 := lib.InspectCar(f, true); err2 == nil {
+				x.Count("c19_trailing_probe_seen", 1)
+				rep, err = rep2, nil
+			}
 		}
 		x.Count("report_inputs", 1)
 		c13JudgeReport(x, rc, or, rep, err)
@@ -654,23 +724,26 @@ func c13Positions(cs C13Case, file []byte, base int, pl *refcar.Payload) []int {
 	return out
 }
 
-// c13SeedClass is the class an unmutated seed must fall into (vacuity guard: a regression that
-// makes NewReader reject every seed, or the two scans disagree on every seed, must not pass).
-func c13SeedClass(cs C13Case, hdrBody, largest uint64) string {
+// c13SeedClass lists the classes an unmutated seed may fall into, the one current go-car gives
+// first (vacuity guard: a regression that makes NewReader reject every seed, or the two scans
+// disagree on every seed, must not pass).
+func c13SeedClass(cs C13Case, hdrBody, largest uint64) []string {
 	v2 := strings.HasPrefix(cs.Cont, "v2")
 	switch {
 	case cs.MaxHdr != 0 && cs.MaxHdr < hdrBody:
-		// a CARv1 is not even opened; a CARv2 is (its pragma is 10 bytes) and Inspect must refuse
+		// The header does not fit the limit, so the seed must be refused; the statement does not say
+		// at which stage. Today a CARv1 is not even opened, a CARv2 is (its pragma is 10 bytes) and
+		// Inspect refuses; refusing at the other stage is as good.
 		if v2 {
-			return "both-reject"
+			return []string{"both-reject", "not-a-container"}
 		}
-		return "not-a-container"
+		return []string{"not-a-container", "both-reject"}
 	case cs.MaxSect != 0 && cs.MaxSect < largest:
-		return "both-reject"
+		return []string{"both-reject"}
 	case (cs.Cont == "v1null" || cs.Cont == "v2null") && !cs.ZeroEOF:
-		return "both-reject"
+		return []string{"both-reject"}
 	}
-	return "both-accept"
+	return []string{"both-accept"}
 }
 
 func runC13(c any, x *kit.Ctx) {
@@ -698,8 +771,14 @@ func runC13(c any, x *kit.Ctx) {
 		return
 	}
 	got := c13Check(x, cs, cf, file, nil)
-	if exp := c13SeedClass(cs, hdrBody, largest); got != exp && got != "fail" {
-		x.Fail("c13:seed:class:"+exp+":"+got, "the unmutated seed is classified %s, expected %s: the comparison would be vacuous", got, exp)
+	if exp := c13SeedClass(cs, hdrBody, largest); got != "fail" {
+		legal := false
+		for _, e := range exp {
+			legal = legal || got == e
+		}
+		if !legal {
+			x.Fail("c13:seed:class:"+exp[0]+":"+got, "the unmutated seed is classified %s, expected %s: the comparison would be vacuous", got, strings.Join(exp, " or "))
+		}
 	}
 	n, amb := 0, 0
 	one := func(m C13Mut) {
@@ -900,8 +979,8 @@ func init() {
 		Decode: kit.DecodeAs[C13Case],
 		Rule: "every seed archive of the enumerated sub-products (see bound; containers CARv1, null-padded, CARv2 with/without index, padded, null padding inside DataSize, trailing bytes after an index-less payload; root lists incl. duplicate, absent, CIDv0, 68-byte, identity, nil and 4 roots (2-byte header varint); blocks incl. CIDv0, identity with empty digest, truncated digest, sha2-512, 3-byte hash-code varint, 2-byte codec varint; sections of 16 KiB, 40 KiB and 70 KiB) with 0 deviations and EVERY 1-deviation neighbour (each byte set to 00/01/7f/80/ff/+1/-1, every truncation; for the >=16 KiB sections only structural positions) x ZeroLengthSectionAsEOF x (section-size limit, header-size limit) in {default, exact, exact-1}; " +
 			"for each input NewReader accepts, Inspect(true) is compared with the hash-verifying scan (library BlockReader, cross-checked by the reference scan; disagreements between the two scans are counted as oracle-ambiguous and excluded): verdict and every statistic, version and CARv2 header taken from the bytes, zero Header for a CARv1. " +
-			"In the cases marked vars each such input is also observed through: a second Inspect on the same Reader, Inspect(false) after it (when the scan succeeds), Roots() before Inspect, a partial DataReader read before Inspect, a ReaderAt-only source and a ReaderAt that returns io.EOF together with the last bytes; in the cases marked files additionally through *os.File, OpenReader (mmap) and every field of cmd/car/lib.InspectCar's Report (ZeroLengthSectionAsEOF cases). " +
-			"Unmutated seeds must fall in their expected class; non-trivial = distinct input accepted by both",
+			"In the cases marked vars each such input is also observed through: a second Inspect on the same Reader, Inspect(false) after it (when the scan succeeds), Roots() before Inspect, a partial DataReader read before Inspect, a ReaderAt-only source and a ReaderAt that returns io.EOF together with the last bytes; in the cases marked files additionally through *os.File, OpenReader (mmap) and every field of cmd/car/lib.InspectCar's Report (in the default-limit cases whose ZeroLengthSectionAsEOF is the one InspectCar itself uses, probed once; roots compared as decoded CIDs, the index type by consistency: one spelling per codec and one codec per spelling over the run; the exact spellings are outcomes beyond-statement:report-*-text). " +
+			"Unmutated seeds must fall in their expected class (a seed whose header exceeds the header limit may be refused at open or by Inspect); non-trivial = distinct input accepted by both",
 		Bound: func(tier string) map[string]any {
 			b := map[string]any{"deviations": 1, "byte_values": 7, "truncations": "all offsets (structural offsets for sections >= 16 KiB: framing, header, length varints, CIDs, first/last data byte, data bytes around 32 KiB and 64 KiB)",
 				"containers": c13Conts, "sources": []string{"bytes", "at", "eofat", "osfile", "mmap", "lib.InspectCar"},
@@ -923,7 +1002,8 @@ func init() {
 			"inputs on which the two scans disagree (e.g. inner header version != 1) are excluded as oracle-ambiguous and counted in coverage.oracle_ambiguous; a seed with more than half of its mutants excluded fails the run",
 			"source kinds other than bytes.Reader and call orders other than a single Inspect are judged against the same oracle, only for inputs that NewReader accepts over bytes.Reader and whose primary observation is right; an input the other source's NewReader rejects is counted (src_open_rejects), not judged, unless it is an unmutated seed",
 			"call orders are crossed with the bytes.Reader source only; source kinds with the single-Inspect order only; the file-backed entry points run with default limits only",
-			"lib.InspectCar on a CARv1 with full validation hits C19's known finding (the trailing-data probe reads from the handle position, 0); exactly that error is set aside and the call repeated with the handle positioned at the end of the file",
+			"lib.InspectCar on a CARv1 with full validation hits C19's known finding (the trailing-data probe reads from the handle position, 0); when InspectCar refuses a CARv1 the scan accepts, the call is repeated with the handle positioned at the end of the file and a success there replaces the refusal (the error text is not matched; a refusal that persists is judged)",
+			"which options lib.InspectCar hard-codes (today ZeroLengthSectionAsEOF, default limits) is not part of the statement: ZeroLengthSectionAsEOF is probed once on a valid null-padded CARv1 and the report is judged in the cases with that setting; default limits are assumed",
 			"Inspect(false) is compared only when the verifying scan succeeds (skip mode cannot detect what full validation detects)",
 			"error classes (io.ErrUnexpectedEOF vs others) and the Stats returned together with an error are not part of the statement and not judged"},
 	})
